@@ -244,7 +244,8 @@ SrvItem(env) == IF env.t = 1 THEN [k |-> "close", pay |-> "", code |-> IF env.s 
 
 ServerRead(env, n) ==
   /\ n = nSR + 1 /\ n <= Len(cw)
-  /\ env = cw[n]
+  \* ordered, exactly once, unchanged - except the routing record a relay (proxy) maintains
+  /\ [env EXCEPT !.rec = 0, !.nxt = 0] = [cw[n] EXCEPT !.rec = 0, !.nxt = 0]
   /\ nSR' = n
   /\ LET id == env.id
          s == Sin(id)
@@ -491,7 +492,7 @@ ServerWriteRaw(env) ==
 
 ClientRead(env, n) ==
   /\ n = nCR + 1 /\ n <= Len(sw)
-  /\ env = sw[n]
+  /\ [env EXCEPT !.rec = 0, !.nxt = 0] = [sw[n] EXCEPT !.rec = 0, !.nxt = 0]
   /\ nCR' = n
   /\ LET id == env.id
          x == Cin(id)
